@@ -1,8 +1,7 @@
 import GojaModel.C01.Lemmas
 /-!
   C01 (a): every `emitGetter` leaves exactly one value (putOnStack) or none (¬putOnStack); by structural
-  induction over the mutual AST.  `Hcfg` = the compiler pops in `emitSetP` for sloppy const bindings (patched
-  compiler) or the code is strict.
+  induction over the mutual AST.
 -/
 namespace GojaModel.C01
 
@@ -56,8 +55,6 @@ theorem emitIdentGet_t (c : IdClass) (h : Nat) : HasHt (emitIdentGet c true) h (
 theorem emitIdentGet_f (c : IdClass) (h : Nat) : HasHt (emitIdentGet c false) h h := by
   cases c <;> simp only [emitIdentGet, onlyIf, popUnless, Bool.false_eq_true, if_false] <;> ht_chain
 
-def Hcfg (cfg : Cfg) : Prop := cfg.setPPops = true ∨ cfg.strict = true
-
 theorem emitBindingSet_t (cfg : Cfg) (c : IdClass) (h : Nat) : HasHt (emitBindingSet cfg c true) (h + 1) (h + 1) := by
   cases c <;> simp only [emitBindingSet, if_true]
   case const s =>
@@ -66,16 +63,13 @@ theorem emitBindingSet_t (cfg : Cfg) (c : IdClass) (h : Nat) : HasHt (emitBindin
     · simp; exact HasHt.nil
   all_goals ht_chain
 
-theorem emitBindingSet_f (cfg : Cfg) (H : Hcfg cfg) (c : IdClass) (h : Nat) :
+theorem emitBindingSet_f (cfg : Cfg) (c : IdClass) (h : Nat) :
     HasHt (emitBindingSet cfg c false) (h + 1) h := by
   cases c <;> simp only [emitBindingSet, Bool.false_eq_true, if_false]
   case const s =>
     split
     · ht_chain
-    · rename_i hns
-      rcases H with H | H
-      · simp [H]; ht_chain
-      · simp [H] at hns
+    · simp; ht_chain
   all_goals ht_chain
 
 theorem emitVarRef_ht (cfg : Cfg) (c : IdClass) (h : Nat) : HasHt (emitVarRef cfg c) h h := by
@@ -90,14 +84,14 @@ theorem emitVarSetter1_t (cfg : Cfg) (c : IdClass) (right : Bool → Code) (d : 
     ht_chain
   · exact HasHt.seq (hr _ _) (emitBindingSet_t _ _ _)
 
-theorem emitVarSetter1_f (cfg : Cfg) (H : Hcfg cfg) (c : IdClass) (right : Bool → Code)
+theorem emitVarSetter1_f (cfg : Cfg) (c : IdClass) (right : Bool → Code)
     (hr : ∀ b h, HasHt (right b) h (h + 1)) (h : Nat) : HasHt (emitVarSetter1 cfg c false right) h h := by
   unfold emitVarSetter1
   split
   · simp only [cat, Bool.false_eq_true, if_false]
     refine HasHt.seq (emitVarRef_ht _ _ _) (HasHt.seq (hr _ _) ?_)
     ht_chain
-  · exact HasHt.seq (hr _ _) (emitBindingSet_f _ H _ _)
+  · exact HasHt.seq (hr _ _) (emitBindingSet_f _ _ _)
 
 /-- a code piece that maps `h+1` operands to `h+1` operands (body of increment and decrement, compound assignment, toNumber) -/
 def Keeps1 (c : Code) : Prop := ∀ h, HasHt c (h + 1) (h + 1)
@@ -132,11 +126,11 @@ theorem emitUnaryId_t (cfg : Cfg) (c : IdClass) (post : Bool) {prep body : Code}
       refine HasHt.seq (k1 := h' + 2) HasHt.nil (HasHt.seq (k1 := h' + 2) (by ht_chain) (HasHt.seq (k1 := h' + 2) (hb _) ?_))
       exact HasHt.conv HasHt.nil (by omega)
 
-theorem emitUnaryId_f (cfg : Cfg) (H : Hcfg cfg) (c : IdClass) (post : Bool) {prep body : Code} (hb : Keeps1 body)
+theorem emitUnaryId_f (cfg : Cfg) (c : IdClass) (post : Bool) {prep body : Code} (hb : Keeps1 body)
     (h : Nat) : HasHt (emitUnaryId cfg c false post prep body) h h := by
   unfold emitUnaryId
   simp only [Bool.false_eq_true, if_false]
-  refine emitVarSetter1_f cfg H c _ ?_ h
+  refine emitVarSetter1_f cfg c _ ?_ h
   intro b h'
   simp only [cat]
   refine HasHt.seq (k1 := h' + 1) ?_ (HasHt.seq (k1 := h' + 1) (hb _) HasHt.nil)
